@@ -318,6 +318,8 @@ func (p *Prog) modsetCall(fi *FuncInfo, ce *ast.CallExpr, ms map[string]bool, bi
 			strings.HasSuffix(full, "sync.RWMutex).Lock") || strings.HasSuffix(full, "sync.RWMutex).Unlock") ||
 			strings.HasSuffix(full, "sync.RWMutex).RLock") || strings.HasSuffix(full, "sync.RWMutex).RUnlock"):
 			ms["F.$lock.held"] = true
+		case full == "(*sync.WaitGroup).Add" || full == "(*sync.WaitGroup).Done":
+			ms["F.$wg.count"] = true
 		case strings.HasPrefix(full, "(encoding/binary.bigEndian).Put") || strings.HasPrefix(full, "encoding/binary.Put"):
 			if len(ce.Args) > 0 {
 				e := ce.Args[0]
